@@ -115,7 +115,7 @@ func (x *Exec) intrinsic(st *State, site ssa.Instruction, fn *ssa.Function, args
 	// packages handled as opaque, effect-free, logged
 	pkg := fn.Pkg.Pkg.Path()
 	switch pkg {
-	case "github.com/weedbox/syncsaga", "github.com/weedbox/timebank":
+	case "github.com/weedbox/syncsaga", "github.com/weedbox/timebank", "github.com/weedbox/pokerface/settlement":
 		x.trust(pkg + ": methods touch only their own object and run callbacks later or never (no claim about when)")
 		recv := Val{K: VOpaque}
 		rest := args
@@ -257,8 +257,11 @@ func funkContains(x *Exec, st *State, site ssa.Instruction, fn *ssa.Function, ar
 			x.oblige(st1, "safety", fmt.Sprintf("contains-bound#%d", len(x.obls)), Le(in.Len, IntLit(10)), "slice searched by funk.Contains has at most 10 elements")
 			x.assume(st, Le(in.Len, IntLit(10)))
 			var ps []*Term
+			savePc := st.pc
 			for i := int64(0); i < 10; i++ {
+				st.pc = And(savePc, Lt(IntLit(i), in.Len))
 				ps = append(ps, And(Lt(IntLit(i), in.Len), pred(IntLit(i))))
+				st.pc = savePc
 			}
 			return scalarVal(Or(ps...), bt)
 		}
@@ -294,6 +297,25 @@ func funkFilter(x *Exec, st *State, site ssa.Instruction, fn *ssa.Function, args
 			ev := loadPlace(st.heap, elemPlace(in, IntLit(i)), et)
 			keep := x.inlineCall(st, p.Fn, []Val{ev}, p.Bind).T
 			// conditional store at position cnt
+			h2 := st.heap.Clone()
+			storePlace(h2, Place{"elem." + typeKey(et), []*Term{ref, cnt}}, et, ev)
+			st.heap = MergeHeaps(keep, h2, st.heap)
+			cnt = Add(cnt, Ite(keep, IntLit(1), IntLit(0)))
+		}
+		out.Len = cnt
+	} else if true {
+		// symbolic length bounded by the universal batch bound 10 (obligation): exact expansion
+		st1 := &State{pc: st.pc, heap: st.heap, alloc: st.alloc}
+		x.oblige(st1, "safety", fmt.Sprintf("filter-bound#%d", len(x.obls)), Le(in.Len, IntLit(10)), "slice filtered by funk.Filter has at most 10 elements")
+		x.assume(st, Le(in.Len, IntLit(10)))
+		cnt := IntLit(0)
+		savePc := st.pc
+		for i := int64(0); i < 10; i++ {
+			ev := loadPlace(st.heap, elemPlace(in, IntLit(i)), et)
+			st.pc = And(savePc, Lt(IntLit(i), in.Len))
+			pv := x.inlineCall(st, p.Fn, []Val{ev}, p.Bind).T
+			st.pc = savePc
+			keep := And(Lt(IntLit(i), in.Len), pv)
 			h2 := st.heap.Clone()
 			storePlace(h2, Place{"elem." + typeKey(et), []*Term{ref, cnt}}, et, ev)
 			st.heap = MergeHeaps(keep, h2, st.heap)
